@@ -186,22 +186,32 @@ example : ∃ c, runOps [g0] (Classical.choose (inv_init genesisOK_g0 [])) [.add
 
 /-! ## C. Crash points (a restart in the middle of an operation's physical writes) -/
 
-/-- Crash-point statement for `save`: whatever prefix of the four `Put`s reached the disk,
+/-- Crash-point statement for `save`: whatever prefix of its physical writes reached the disk,
     start-up comes back with a chain that represents some list. -/
 def FullStatementCrashSave : Prop :=
   ∀ (l : List Group) (c : Chain) (g : Group) (gen : List Group) (k : Nat) (d : Store) (m : List Bytes),
     Rep l c → IdOK g.id → l.length + 1 < lenBound → addCheck c g = .ok →
     saveB c g k = .crashed d m → ∃ c' l', restart d m gen = some (.alive c') ∧ Rep l' c'
 
-/-- Proved part: a crash before the second `Put` is harmless (the group JSON is an orphan). -/
-theorem inv_crash_save_partial {l : List Group} {c : Chain} (r : Rep l c) (g : Group) (gen : List Group)
-    (hid : IdOK g.id) (hok : addCheck c g = .ok) (k : Nat) (hk : k ≤ 1) :
-    ∃ d m c', saveB c g k = .crashed d m ∧ restart d m gen = some (.alive c') ∧ Rep l c' :=
-  crash_save_le1 r g gen hid hok k hk
+/-- FULL strength since "fix: groupChain.save writes gcurrent, the height slot and gcount in one atomic
+    batch": `save` has two physical writes — `Put(id, json)` and the batch — hence two crash points
+    (before the first, between the two), and after either start-up represents the OLD list; the group
+    JSON alone is an unreferenced entry. (Before the fix the cuts after the 2nd / 3rd of four `Put`s
+    left `gcurrent` ahead of `gcount`: former findings crash:save:k2, k3.) -/
+theorem inv_crash_save : FullStatementCrashSave := by
+  intro l c g gen k d m r hid _ hok h
+  obtain ⟨c', e, r'⟩ := crash_save_all r g gen hid (fresh_of_addCheck r hok) k d m h
+  exact ⟨c', l, e, r'⟩
 
-/-- …and a budget of four or more writes does not cut `save` at all. -/
-theorem save_not_cut (c : Chain) (g : Group) (k : Nat) (hk : 4 ≤ k) :
-    saveB c g k = .done (save c g) (k - 4) := saveB_done c g k hk
+/-- …more precisely: it is the old list, for both crash points. -/
+theorem inv_crash_save_old_list {l : List Group} {c : Chain} (r : Rep l c) (g : Group) (gen : List Group)
+    (hid : IdOK g.id) (hok : addCheck c g = .ok) (k : Nat) (hk : k < 2) :
+    ∃ d c', saveB c g k = .crashed d c.mirror ∧ restart d c.mirror gen = some (.alive c') ∧ Rep l c' :=
+  crash_save_fresh r g gen hid (fresh_of_addCheck r hok) k hk
+
+/-- A budget of two or more physical writes does not cut `save` at all. -/
+theorem save_not_cut (c : Chain) (g : Group) (k : Nat) (hk : 2 ≤ k) :
+    saveB c g k = .done (save c g) (k - 2) := saveB_done c g k hk
 
 /-- The chain after [boot g0]. -/
 def c1 : Chain := ([g0].foldl save { disk := [], count := 0, last := g0, mirror := [] })
@@ -216,26 +226,6 @@ theorem rep_c1 : Rep [g0] c1 := by
 /-- `Rep` forces `count` = length of the iterator walk. -/
 theorem rep_count_eq_iter {l : List Group} {c : Chain} (r : Rep l c) : (iterList c).length = c.count := by
   rw [iterList_rep r, r.count]; simp
-
-/-- Known finding crash:save:k2 — [boot g0; crash 2 add gA]: `gcurrent` already names the new
-    group, `gcount` is still 1; start-up comes back with Count()=1 but a two-group list. -/
-theorem inv_crash_save_counterexample : ¬ FullStatementCrashSave := by
-  intro h
-  have hok : addCheck c1 gA = .ok := by decide
-  obtain ⟨c', l', h1, r'⟩ := h [g0] c1 gA [g0] 2
-    (applyPrefix 2 c1.disk (saveWrites c1.count gA)) c1.mirror rep_c1
-    (by simp [IdOK, gA, cntKey]) (by simp [lenBound]) hok (by simp [saveB, saveWrites])
-  have hc' : restart (applyPrefix 2 c1.disk (saveWrites c1.count gA)) c1.mirror [g0] =
-      some (.alive { disk := applyPrefix 2 c1.disk (saveWrites c1.count gA), count := 1,
-                     last := stamped 1 gA,
-                     mirror := refreshCache (applyPrefix 2 c1.disk (saveWrites c1.count gA)) 1 (stamped 1 gA) c1.mirror }) := by
-    decide
-  rw [hc'] at h1
-  simp at h1
-  subst h1
-  have := rep_count_eq_iter r'
-  revert this
-  decide
 
 /-- Crash-point statement for `remove`. -/
 def FullStatementCrashRemove : Prop :=
@@ -310,10 +300,20 @@ def FullStatementFirstBootCrash : Prop :=
   ∀ (gs : List Group) (k : Nat) (d : Store) (m : List Bytes), GenesisOK gs →
     firstBootB [] [] gs k = some (.crashed d m) → ∃ c l, restart d m gs = some (.alive c) ∧ Rep l c
 
-/-- Proved part, including double crashes: the first start-up cut after ≤ 1 write, the start-up
-    after it cut again after ≤ 1 write, … any number of times (`FreshFor` is kept) — the next
-    uninterrupted start-up represents exactly the genesis list. -/
-theorem inv_first_boot_crash_partial {g0 : Group} {rest : List Group} (ok : GenesisOK (g0 :: rest))
+/-- FULL strength since the atomic-batch fix: wherever the first start-up is cut — inside the first
+    genesis save (start-up then re-runs the genesis branch), between two genesis groups, or inside a
+    later genesis save — the next start-up comes back with a chain that represents a list.
+    (Former findings crash:firstboot:k2, k3.) -/
+theorem inv_first_boot_crash : FullStatementFirstBootCrash := by
+  intro gs k d m ok h
+  cases gs with
+  | nil => exact absurd rfl ok.ne
+  | cons g0 rest => exact first_boot_crash_all ok k d m h
+
+/-- Double crashes: the first start-up cut inside the first genesis save, the start-up after it cut
+    there again, … any number of times (`FreshFor` is kept) — the next uninterrupted start-up
+    represents exactly the genesis list. -/
+theorem inv_first_boot_double_crash {g0 : Group} {rest : List Group} (ok : GenesisOK (g0 :: rest))
     (k1 k2 : Nat) (h1 : k1 ≤ 1) (h2 : k2 ≤ 1) :
     ∃ d1 d2 c, firstBootB [] [] (g0 :: rest) k1 = some (.crashed d1 []) ∧
       firstBootB d1 [] (g0 :: rest) k2 = some (.crashed d2 []) ∧
@@ -323,28 +323,12 @@ theorem inv_first_boot_crash_partial {g0 : Group} {rest : List Group} (ok : Gene
   obtain ⟨c, e3, r⟩ := rep_init_fresh ok d2 [] f2
   exact ⟨d1, d2, c, e1, e2, e3, r⟩
 
-/-- Known finding crash:firstboot:k2 — [bootcrash 2 - g0]: `gcurrent` is written, `gcount` is not;
-    the next start-up takes the non-genesis branch with `count = 0` and a one-group list. -/
-theorem inv_first_boot_crash_counterexample : ¬ FullStatementFirstBootCrash := by
-  intro h
-  obtain ⟨c, l, h1, r⟩ := h [g0] 2 (applyPrefix 2 [] (saveWrites 0 g0)) [] genesisOK_g0 (by decide)
-  have hc : restart (applyPrefix 2 [] (saveWrites 0 g0)) [] [g0] =
-      some (.alive { disk := applyPrefix 2 [] (saveWrites 0 g0), count := 0, last := stamped 0 g0,
-                     mirror := refreshCache (applyPrefix 2 [] (saveWrites 0 g0)) 0 (stamped 0 g0) [] }) := by
-    decide
-  rw [hc] at h1
-  simp at h1
-  subst h1
-  have := rep_count_eq_iter r
-  revert this
-  decide
-
 /-- A first start-up with two genesis groups cut exactly between them comes back as a valid chain
-    of the first group only: the second genesis group is silently never added. -/
+    of the first group only: the second genesis group is silently never added (not a C19 violation). -/
 theorem first_boot_cut_between_genesis :
-    ∃ d m c, firstBootB [] [] [g0, gA] 4 = some (.crashed d m) ∧
+    ∃ d m c, firstBootB [] [] [g0, gA] 2 = some (.crashed d m) ∧
       restart d m [g0, gA] = some (.alive c) ∧ Rep [g0] c := by
-  have hd : firstBootB [] [] [g0, gA] 4 = some (.crashed c1.disk c1.mirror) := by decide
+  have hd : firstBootB [] [] [g0, gA] 2 = some (.crashed c1.disk c1.mirror) := by decide
   obtain ⟨c', e, _, _, _, r⟩ := rep_restart rep_c1 c1.mirror [g0, gA]
   exact ⟨c1.disk, c1.mirror, c', hd, e, r⟩
 
@@ -401,72 +385,38 @@ example : c2.mirror.Perm ([g0, stamped 1 gA].map (·.id)) := by decide
 
 /-! ## H. Write faults: a `Put`/`Delete` that returns an error -/
 
-/-- What durability asks for: when one of the four store writes of `save` fails with an error,
+/-- What durability asks for: when one of the physical store writes of `save` fails with an error,
     the chain is still in a state that represents some list (and the caller can retry). -/
 def FullStatementWriteFault : Prop :=
   ∀ (l : List Group) (c : Chain) (g : Group) (j : Nat), Rep l c → IdOK g.id → l.length + 1 < lenBound →
-    addCheck c g = .ok → j < 4 → ∃ l', Rep l' (saveF c g (some j)).1
+    addCheck c g = .ok → j < 2 → ∃ l', Rep l' (saveF c g (some j)).1
 
-/-- `save` ignores the error value of every `Put`: a failed `Put(gcount)` leaves `Count()=2` in
-    memory over `gcount=1` in the store (known findings writefault:*; replayed with hook H2b). -/
+/-- Proved part (since the atomic-batch fix): a failed BATCH write is returned by `save` before
+    memory, sqlite or the index are touched — `AddGroup` answers with the error, the chain still
+    represents the old list, and a retry is an ordinary `AddGroup`. -/
+theorem write_fault_batch_surfaces {l : List Group} {c : Chain} (r : Rep l c) (g : Group)
+    (hid : IdOK g.id) (hok : addCheck c g = .ok) :
+    (addGroupF c g (some 1)).1 = .writeErr ∧ Rep l (addGroupF c g (some 1)).2 := by
+  have hfresh := fresh_of_addCheck r hok
+  have r1 := r.orphan g.id (.grp (stamped c.count g)) hid hfresh
+  refine ⟨by simp [addGroupF, hok, saveF], ?_⟩
+  have : (addGroupF c g (some 1)).2 = { c with disk := sput c.disk g.id (.grp (stamped c.count g)) } := by
+    simp [addGroupF, hok, saveF, saveWrites, applyWrites, applyWrite]
+  rw [this]; exact r1
+
+/-- Still false for the first write: the error of `Put(group.Id, json)` is ignored, the batch is
+    written and memory advances — the index names a group that is not stored (known finding
+    writefault:save:w0; replayed with hook H2b). -/
 theorem write_fault_counterexample : ¬ FullStatementWriteFault := by
   intro h
-  obtain ⟨l', r'⟩ := h [g0] c1 gA 3 rep_c1 (by simp [IdOK, gA, cntKey]) (by simp [lenBound]) (by decide) (by decide)
-  have h1 := r'.count
-  have h2 := r'.cnt
-  have e1 : (saveF c1 gA (some 3)).1.count = 2 := by decide
-  have e2 : sget (saveF c1 gA (some 3)).1.disk cntKey = some (.cnt 1) := by decide
-  rw [e1] at h1
-  rw [e2] at h2
-  simp at h2
-  omega
+  obtain ⟨l', r'⟩ := h [g0] c1 gA 0 rep_c1 (by simp [IdOK, gA, cntKey]) (by simp [lenBound]) (by decide) (by decide)
+  have h1 := r'.stored _ r'.last_mem
+  have e : sget (saveF c1 gA (some 0)).1.disk (saveF c1 gA (some 0)).1.last.id = none := by decide
+  rw [e] at h1
+  cases h1
 
-/-- A fault index beyond the operation's writes changes nothing (the partial, trivial part). -/
-theorem write_fault_beyond (c : Chain) (g : Group) (j : Nat) (hj : 4 ≤ j) :
-    saveF c g (some j) = (save c g, some (j - 4)) := by
-  have : ¬ j < 4 := by omega
-  simp [saveF, this]
-
-/-! ## I. A minimal repair for the crash points of `save` (PROPOSED code, branch hooks/c19-atomic-save)
-
-Is there a re-ordering / grouping of the writes, without a deleting batch, after which every crash
-prefix is recoverable at start-up? For `save`: yes — the group JSON first, then `gcurrent`, the height
-slot and `gcount` through one `NewBatch().Write()` (the `db.Batch` interface has `Put`, which is all
-`save` needs). The theorem below is about that write grouping; it is not what `/repo` runs today
-(the driver and the T-gen facts follow the current code), the searcher was run against the branch.
-For `remove` no grouping of `Put`-only batches works: its two `Delete`s are separate physical writes,
-and each order leaves one prefix that violates a clause (see design/C19.md). -/
-
-/-- The physical writes of the proposed `save`: two, the second one atomic. -/
-def saveWriteGroups (count : Nat) (g : Group) : List (List Write) :=
-  [(saveWrites count g).take 1, (saveWrites count g).drop 1]
-
-/-- EVERY crash prefix of the proposed `save` (0, 1 or 2 physical writes) is read back by start-up as
-    a chain that represents the old list or the old list plus the new group. -/
-theorem inv_crash_save_batched {l : List Group} {c : Chain} (r : Rep l c) (g : Group) (gen : List Group)
-    (hb : l.length + 1 < lenBound) (hid : IdOK g.id) (hok : addCheck c g = .ok) (k : Nat) :
-    ∃ c', restart (applyWrites c.disk ((saveWriteGroups c.count g).take k).flatten) c.mirror gen = some (.alive c') ∧
-      (Rep l c' ∨ Rep (l ++ [stamped l.length g]) c') := by
-  have hfresh : ∀ x ∈ l, x.id ≠ g.id := by
-    intro x hx e
-    have h1 := (addCheck_ok hok).1
-    have := r.stored x hx
-    rw [e] at this
-    simp [shas, this] at h1
-  match k with
-  | 0 =>
-    obtain ⟨c', h1, _, _, _, h5⟩ := rep_restart r c.mirror gen
-    exact ⟨c', by simpa [saveWriteGroups, applyWrites] using h1, Or.inl h5⟩
-  | 1 =>
-    have r1 := r.orphan g.id (.grp (stamped c.count g)) hid hfresh
-    obtain ⟨c', h1, _, _, _, h5⟩ := rep_restart r1 c.mirror gen
-    exact ⟨c', by simpa [saveWriteGroups, saveWrites, applyWrites, applyWrite] using h1, Or.inl h5⟩
-  | k + 2 =>
-    have r2 := (rep_add r g hb hid hok).2
-    obtain ⟨c', h1, _, _, _, h5⟩ := rep_restart r2 c.mirror gen
-    refine ⟨c', ?_, Or.inr h5⟩
-    have : applyWrites c.disk ((saveWriteGroups c.count g).take (k + 2)).flatten = (save c g).disk := by
-      simp [saveWriteGroups, saveWrites, save]
-    rw [this]; exact h1
+/-- A fault index beyond the operation's writes changes nothing. -/
+theorem write_fault_beyond (c : Chain) (g : Group) (j : Nat) :
+    saveF c g (some (j + 2)) = (save c g, false, some j) := rfl
 
 end Rangers.Props.C19
